@@ -70,4 +70,20 @@ theorem rules_WeekMonth_IsValid_eq (wi wd m : Int) :
     rules_WeekMonth_IsValid ⟨wi, wd, m⟩ = some (WM.isValid wi wd m) := by
   simp only [rules_WeekMonth_IsValid, WM.isValid, pure]
 
+/-- the composite validity checks the rule checkers of `start` / `end` (DateHMS), `dayTimeRange` (HMSRange) and the
+    days-plus-time form (DHMS) call are the conjunctions the model's `check` uses -/
+theorem lib_DateHMS_IsValid_eq (y m d h mi s : Int) :
+    lib_DateHMS_IsValid ⟨⟨y, m, d⟩, ⟨h, mi, s⟩⟩ = some (DateV.isValid ⟨y, m, d⟩ && HMS.isValid ⟨h, mi, s⟩) := by
+  simp only [lib_DateHMS_IsValid, lib_Date_IsValid_eq, lib_HMS_IsValid_eq, bind, Option.bind, pure]
+  cases DateV.isValid ⟨y, m, d⟩ <;> simp
+
+theorem lib_HMSRange_IsValid_eq (h1 m1 s1 h2 m2 s2 : Int) :
+    lib_HMSRange_IsValid ⟨⟨h1, m1, s1⟩, ⟨h2, m2, s2⟩⟩ = some (HMS.isValid ⟨h1, m1, s1⟩ && HMS.isValid ⟨h2, m2, s2⟩) := by
+  simp only [lib_HMSRange_IsValid, lib_HMS_IsValid_eq, bind, Option.bind, pure]
+  cases HMS.isValid ⟨h1, m1, s1⟩ <;> simp
+
+theorem lib_DHMS_IsValid_eq (days h m s : Int) :
+    lib_DHMS_IsValid ⟨⟨h, m, s⟩, days⟩ = some (HMS.isValid ⟨h, m, s⟩) := by
+  simp only [lib_DHMS_IsValid, lib_HMS_IsValid_eq]
+
 end Starcal.SrcTie
